@@ -38,6 +38,7 @@ Rewrite rules (global, always on; each application is logged):
   R1  attributes #[inline..] #[cold] #[must_use] #[allow..] #[track_caller] #[derive(..)] (for
       structs: derive kept only for Clone/Copy/Default/PartialEq/Eq) #[doc..] and doc comments removed; visibility
       `pub(crate)`/`pub(super)`/private -> `pub` for fields and items; `const fn` -> `fn`.
+  R10 byte-string literals b".." in function bodies -> `&[0x.., ..]` (same bytes; Verus does not model literal contents)
   R2  `trace!(..);` statements removed; `debug_assert!(e[, msg..])` -> `assert(e)` (becomes a
       proof obligation); `debug_assert_eq!(a, b..)` -> `assert(a == b)`.
 """
@@ -263,6 +264,18 @@ def apply_global_rules(text, kind, log):
                         log.append("R2 debug_assert_eq! -> assert (proof obligation)")
                     k = e + 1
                     continue
+        # R10 byte-string literals: Verus knows the length but not the contents of b"..": rewritten to the array literal of
+        # the same bytes (computed here from the literal token)
+        if t.kind == "str" and t.text.startswith('b"') and kind == "fn":
+            try:
+                val = eval(t.text)  # a Rust byte-string literal without exotic escapes is a valid Python bytes literal
+            except Exception:
+                val = None
+            if isinstance(val, (bytes, bytearray)) and "\\u" not in t.text:
+                out.append("&[" + ", ".join(f"0x{b:02x}u8" for b in val) + "]")
+                log.append(f"R10 byte-string literal {t.text} -> array literal of the same bytes")
+                k += 1
+                continue
         # visibility
         if t.kind == "ident" and t.text == "pub":
             j = skip_ws(k + 1)
